@@ -105,6 +105,7 @@ def rand_scenario(
     poll_kinds=False,
     p_empty_table=0.0,
     call_kw_drops=False,
+    p_via_attrs=0.0,
 ):
     n = rng.randint(*max_attempts)
     nout = n + 1
@@ -215,6 +216,7 @@ def rand_scenario(
         "sleeper_kind": rng.choice(["async", "sync", "lambda", "callable", "falsy"] if exotic_callables else ["async", "async", "sync"]),
         "timeline": rng.choice([False, True, "obj"]),
         "via_config": bool(p_via_config and rng.random() < p_via_config),
+        "via_attrs": bool(p_via_attrs and rng.random() < p_via_attrs),  # configured by assigning public attributes after construction
         "poll_kind": rng.choice(["bool", "int", "str", "obj"]) if poll_kinds else "bool",
         "poll": rng.random() < 0.15,
         "ctx_decoy": rng.random() < 0.35,  # context-manager entries only: a second context object alive at the same time
